@@ -134,8 +134,8 @@ Compare(hs, p) ==
   ELSE IF Root(hs) = p.root THEN "Equal"
   ELSE IF p.index + 1 <= Len(hs)
        THEN IF /\ Verify(p, hs[p.index + 1], p.length)
-               /\ p.length <= Len(hs)
-               /\ Root(SubSeq(hs, 1, p.length)) = p.root
+               /\ (p.length <= Len(hs) =>
+                      Root(SubSeq(hs, 1, p.length)) = p.root)
             THEN "Contains" ELSE "Unknown"
        ELSE "Unknown"
 
